@@ -721,8 +721,71 @@ def library_signatures(trees):
     return dict((k, v) for k, v in sigs.items() if k not in clash)
 
 
+# N22: `n1, n2, ..., nk = X` with X a plain name the function never re-binds (a module-level coefficient table, a parameter)
+# and every ni bound only there is "give the entries names": reads of ni are X[i-1].  Only at the top level of the function
+# body or of an `if` body (the binding dominates every read that follows it textually in that block and there is no loop
+# between); X must not be stored through (`X[i] = ...`, `X.append`) anywhere in the function.
+
+def _unpack_names_in(fn):
+    stores, captured = {}, set()
+    for n in ast.walk(fn):
+        if isinstance(n, ast.Name) and isinstance(n.ctx, (ast.Store, ast.Del)): stores[n.id] = stores.get(n.id, 0) + 1
+        if isinstance(n, (ast.Global, ast.Nonlocal)):
+            for nm in n.names: stores[nm] = stores.get(nm, 0) + 2
+        if isinstance(n, (ast.FunctionDef, ast.Lambda)) and n is not fn:
+            for x in ast.walk(n):
+                if isinstance(x, ast.Name): captured.add(x.id)
+        if isinstance(n, ast.ExceptHandler) and n.name: stores[n.name] = stores.get(n.name, 0) + 1
+    params = set(a.arg for a in fn.args.posonlyargs + fn.args.args + fn.args.kwonlyargs)
+    order = dict((id(n), k) for k, n in enumerate(_preorder(fn)))
+    done = False
+    def blocks(stmts, in_loop):
+        yield stmts, in_loop
+        for st in stmts:
+            if isinstance(st, ast.If):
+                for b in (st.body, st.orelse):
+                    for x in blocks(b, in_loop): yield x
+    for stmts, _l in list(blocks(fn.body, False)):
+        for st in list(stmts):
+            if not (isinstance(st, ast.Assign) and len(st.targets) == 1 and isinstance(st.targets[0], ast.Tuple) and isinstance(st.value, ast.Name)): continue
+            X = st.value.id
+            tg = st.targets[0].elts
+            if not all(isinstance(t, ast.Name) for t in tg) or len(tg) < 2: continue
+            names = [t.id for t in tg]
+            if len(set(names)) != len(names) or X in names: continue
+            if stores.get(X, 0) > 0 and not (X in params and stores.get(X, 0) == 0): continue
+            if any(stores.get(t, 0) != 1 or t in captured or t in params for t in names): continue
+            # X never mutated: no subscript / attribute store rooted at X, no method call on X
+            bad = False
+            for n in ast.walk(fn):
+                if isinstance(n, (ast.Subscript, ast.Attribute)) and isinstance(n.ctx, (ast.Store, ast.Del)):
+                    r = n
+                    while isinstance(r, (ast.Subscript, ast.Attribute)): r = r.value
+                    if isinstance(r, ast.Name) and r.id == X: bad = True
+                if isinstance(n, ast.Call) and isinstance(n.func, ast.Attribute) and isinstance(n.func.value, ast.Name) and n.func.value.id == X: bad = True
+                if isinstance(n, ast.AugAssign) and isinstance(n.target, ast.Name) and n.target.id == X: bad = True
+                if isinstance(n, ast.Name) and isinstance(n.ctx, ast.Load) and n.id in names and order[id(n)] < order[id(st)]: bad = True
+            if bad: continue
+            idx = dict((t, k) for k, t in enumerate(names))
+            class R(ast.NodeTransformer):
+                def visit_Lambda(self, node): return node
+                def visit_Name(self, n):
+                    if isinstance(n.ctx, ast.Load) and n.id in idx:
+                        return ast.copy_location(ast.Subscript(value=ast.Name(id=X, ctx=ast.Load()), slice=ast.Constant(value=idx[n.id]), ctx=ast.Load()), n)
+                    return n
+            k = stmts.index(st)
+            stmts[k] = ast.copy_location(ast.Pass(), st)
+            R().visit(fn)
+            done = True
+    if done: ast.fix_missing_locations(fn)
+    return done
+
+
 def alias_locals(tree):
     tree = _SplitTuples().visit(tree)
+    for fn in [n for n in ast.walk(tree) if isinstance(n, ast.FunctionDef)]:
+        if any(isinstance(x, ast.Assign) and isinstance(x.value, ast.Name) and x.targets and isinstance(x.targets[0], ast.Tuple) for x in ast.walk(fn)):
+            _unpack_names_in(fn)
     methods, computed = _module_attr_kinds(tree)
     methods, computed = methods | LIBRARY_METHODS, computed | LIBRARY_PROPERTIES
     for fn in [n for n in ast.walk(tree) if isinstance(n, ast.FunctionDef)]:
